@@ -413,7 +413,25 @@ func c10LocalTypeB() any {
 	return c10LocalB{}
 }
 
+// defined (named) element types: what is stored must have the field's own type, not the kind's default
+type c10Str string
+type c10I32 int32
+type c10F64 float64
+
+type c10Named struct {
+	ID     string            `node:"id"`
+	Parent string            `node:"parent"`
+	V      c10Str            `point:"v"`
+	N      c10I32            `point:"n"`
+	F      c10F64            `point:"f"`
+	P      *c10Str           `point:"p"`
+	S      []c10Str          `point:"s"`
+	M      map[string]c10Str `point:"m"`
+	MI     map[string]c10I32 `edgepoint:"mi"`
+}
+
 var c10Types = []*c10Type{
+	c10Describe(c10Named{}),
 	c10Describe(c10Scalars{}), c10Describe(c10Ptrs{}), c10Describe(c10Slices{}), c10Describe(c10Arrays{}),
 	c10Describe(c10Maps{}), c10Describe(c10Structs{}), c10Describe(c10Mixed{}), c10Describe(c10LocalTypeA()),
 	c10Describe(c10LocalTypeB()), c10Describe(c10BigArray{}),
@@ -566,7 +584,7 @@ func c10SetPrim(dst reflect.Value, v c10PV) {
 	case reflect.Float32:
 		dst.Set(reflect.ValueOf(math.Float32frombits(uint32(v.Bits))))
 	case reflect.Float64:
-		dst.Set(reflect.ValueOf(math.Float64frombits(v.Bits)))
+		dst.SetFloat(math.Float64frombits(v.Bits))
 	case reflect.String:
 		dst.SetString(string(v.S))
 	}
@@ -585,9 +603,12 @@ func c10GetPrim(src reflect.Value) c10PV {
 	case reflect.Uint, reflect.Uint8, reflect.Uint16, reflect.Uint32, reflect.Uint64:
 		return c10PV{K: 1, Mag: src.Uint()}
 	case reflect.Float32:
-		return c10PV{K: 2, Bits: uint64(math.Float32bits(src.Interface().(float32)))}
+		if f, ok := src.Interface().(float32); ok {
+			return c10PV{K: 2, Bits: uint64(math.Float32bits(f))}
+		}
+		return c10PV{K: 2, Bits: uint64(math.Float32bits(float32(src.Float())))}
 	case reflect.Float64:
-		return c10PV{K: 3, Bits: math.Float64bits(src.Interface().(float64))}
+		return c10PV{K: 3, Bits: math.Float64bits(src.Float())}
 	}
 	return c10PV{K: 4, S: []byte(src.String())}
 }
